@@ -4,6 +4,7 @@ pub mod c02;
 pub mod c04;
 pub mod c05;
 pub mod c09;
+pub mod c10;
 pub mod c11;
 pub mod c12;
 pub mod c14;
@@ -18,6 +19,7 @@ pub fn get(id: &str) -> Option<Box<dyn Check>> {
         "C12" => Some(Box::new(c12::C12)),
         "C04" => Some(Box::new(c04::C04)),
         "C09" => Some(Box::new(c09::C09)),
+        "C10" => Some(Box::new(c10::C10)),
         "C05" => Some(Box::new(c05::C05)),
         _ => None,
     }
